@@ -13,7 +13,7 @@ import z3
 
 from .values import (Unsupported, EngineError, is_z3, is_boolish, is_intish, is_realish,
                      is_numish, concretize, simp, Z, ZB, ZR, EnumV, Opt, SymList, EmptyList,
-                     SymSet, Obj, ActionV, ClassRef, TypeV, FuncV, RangeV, DictV, ObjList, RowRef, PartialV, ListLit, SymMap2, NdArray3, INF, Inf,
+                     SymSet, Obj, ActionV, ClassRef, TypeV, FuncV, RangeV, IndexV, DictV, ObjList, RowRef, PartialV, ListLit, SymMap2, NdArray3, INF, Inf,
                      STORAGE_CODES,
                      STEPTYPE)
 from .source import AnchorError
@@ -285,6 +285,8 @@ class Engine:
             return c, [c >= 0, c <= 6]
         if ty == "str":
             return EnumV("str", z3.Int(n)), []
+        if ty == "opindex":
+            return IndexV(z3.Bool(n + ".ip"), z3.Int(n + ".i0"), z3.Int(n + ".i1")), []
         if ty == "set":
             arr = z3.Const(n + ".s", z3.ArraySort(z3.IntSort(), z3.BoolSort()))
             card = z3.Int(n + ".card")
@@ -337,6 +339,8 @@ class Engine:
             for i, t in enumerate(v.etypes):
                 cs += self.elem_constraints(x, i, t)
             return x, cs
+        if isinstance(v, IndexV):
+            return self.fresh("opindex", hint)
         if isinstance(v, SymSet):
             x, cs = self.fresh("set", hint)
             return x, cs + [x.card >= 0]
@@ -385,8 +389,12 @@ class Engine:
             if isinstance(ty, tuple) and ty[0] in ("list", "tuplelist") and len(ty[1]) == 1:
                 out[f] = z3.ArraySort(z3.IntSort(), z3.ArraySort(z3.IntSort(), self.sort_of(ty[1][0])))
                 out[f + ".len"] = z3.ArraySort(z3.IntSort(), z3.IntSort())
-            elif isinstance(ty, str) and ty in ("int", "nat", "bool", "real"):
+            elif isinstance(ty, str) and ty in ("int", "nat", "bool", "real", "str", "storage"):
                 out[f] = z3.ArraySort(z3.IntSort(), self.sort_of(ty))
+            elif ty == "opindex":
+                out[f + ".ip"] = z3.ArraySort(z3.IntSort(), z3.BoolSort())
+                out[f + ".i0"] = z3.ArraySort(z3.IntSort(), z3.IntSort())
+                out[f + ".i1"] = z3.ArraySort(z3.IntSort(), z3.IntSort())
             else:
                 raise Unsupported("field %s.%s of type %r in a list of objects" % (cls, f, ty))
         return out
@@ -400,6 +408,8 @@ class Engine:
         for k, a in arrays.items():
             if k.endswith(".len"):
                 cons.append(z3.ForAll([i], z3.Select(a, i) >= 0))
+            elif self.reg.fields_of(cls).get(k) == "storage":
+                cons.append(z3.ForAll([i], z3.And(z3.Select(a, i) >= 0, z3.Select(a, i) <= 3)))
         return ObjList(cls, arrays, ln, self.reg.fields_of(cls)), cons
 
     def materialise(self, st, lst, row):
@@ -407,11 +417,7 @@ class Engine:
         oid = "row!%d" % next(self.fresh_id)
         fields = {}
         for f, ty in lst.ftypes.items():
-            if f + ".len" in lst.arrays:
-                fields[f] = SymList([simp(z3.Select(lst.arrays[f], Z(row)))],
-                                    simp(z3.Select(lst.arrays[f + ".len"], Z(row))), ty[1], False)
-            else:
-                fields[f] = simp(z3.Select(lst.arrays[f], Z(row)))
+            fields[f] = self.row_field(lst, row, f)
         st.heap[oid] = fields
         obj = Obj(oid, lst.cls)
         # rows are only ever modified through method contracts whose frames preserve the class
@@ -424,6 +430,20 @@ class Engine:
             st.assume(self.ev_spec(expr, inv))
         return obj
 
+    def row_field(self, lst, row, f):
+        ty = lst.ftypes[f]
+        if f + ".len" in lst.arrays:
+            return SymList([simp(z3.Select(lst.arrays[f], Z(row)))],
+                           simp(z3.Select(lst.arrays[f + ".len"], Z(row))), ty[1], False)
+        if ty == "opindex":
+            return IndexV(*[simp(z3.Select(lst.arrays["%s.%s" % (f, k)], Z(row))) for k in ("ip", "i0", "i1")])
+        e = simp(z3.Select(lst.arrays[f], Z(row)))
+        if ty == "str":
+            return EnumV("str", e)
+        if ty == "storage":
+            return EnumV("StorageType", e)
+        return e
+
     def writeback(self, st, lst, row, obj):
         arrays = dict(lst.arrays)
         for f, ty in lst.ftypes.items():
@@ -433,10 +453,27 @@ class Engine:
                     v = SymList([z3.K(z3.IntSort(), self.default_of(ty[1][0]))], 0, ty[1], False)
                 arrays[f] = simp(z3.Store(arrays[f], Z(row), v.arrs[0]))
                 arrays[f + ".len"] = simp(z3.Store(arrays[f + ".len"], Z(row), Z(v.length)))
+            elif ty == "opindex":
+                for k in ("ip", "i0", "i1"):
+                    x = getattr(v, k)
+                    arrays["%s.%s" % (f, k)] = simp(z3.Store(arrays["%s.%s" % (f, k)], Z(row),
+                                                            ZB(x) if k == "ip" else Z(x)))
             else:
-                arrays[f] = simp(z3.Store(arrays[f], Z(row), ZB(v) if is_boolish(v) else Z(v)))
+                arrays[f] = simp(z3.Store(arrays[f], Z(row), ZB(v) if is_boolish(v) else self.elem_to_z3(v)))
         del st.heap[obj.oid]
         return ObjList(lst.cls, arrays, lst.length, lst.ftypes)
+
+    def row_object(self, ref, st, node):
+        """lst[idx] as an object (Python index semantics: -len <= idx < len)."""
+        ln = ref.lst.length
+        idx = ref.row
+        self.oblige(st, And(self.cmp(ast.GtE(), idx, self.arith(ast.Sub(), 0, ln, st, node)),
+                            self.cmp(ast.Lt(), idx, ln)), "index_in_range", node)
+        if isinstance(idx, int):
+            pos = idx if idx >= 0 else self.arith(ast.Add(), ln, idx, st, node)
+        else:
+            pos = Ite(self.cmp(ast.Lt(), idx, 0), self.arith(ast.Add(), ln, idx, st, node), idx)
+        return self.materialise(st, ref.lst, pos)
 
     def row_call(self, st, ref, meth, args, kw, node):
         c = self.reg.method_contract(ref.lst.cls, meth)
@@ -469,6 +506,16 @@ class Engine:
         if st.spec_mode:
             return
         trivial = cond is True
+        if kind == "implicit" and label in getattr(self.contract, "implicit_guards", ()) and not self.concrete \
+                and (st.frames[-1].func or self.fi) is self.fi:
+            # the function is verified on the paths where it does not raise itself (total=False):
+            # this implicit exception ends the path like an explicit guard
+            if cond is not True:
+                note = "%s#%s:%s not proved absent (bounded)" % (self.fi.name, self.fi.site(node), label)
+                if note not in self.delegated:
+                    self.delegated.append(note)
+                st.assume(cond)
+            return
         if self.concrete:
             if cond is not True:
                 self.concrete_failed.append((label, getattr(node, "lineno", 0), str(cond)[:200]))
@@ -526,16 +573,31 @@ class Engine:
     def qf(self, pc):
         return [c for c in pc if not self.has_quantifier(c)]
 
+    def _check(self, assertions):
+        """sat / unsat / unknown of a quantifier-free conjunction under the small deterministic
+        resource limit (unknown keeps the path: sound, it only makes more paths feasible)."""
+        self.solver.push()
+        try:
+            self.solver.add(*assertions)
+            return self.solver.check()
+        finally:
+            self.solver.pop()
+
+    def strongly_infeasible(self, st):
+        """Used when a path runs into a construct outside the verified subset: before giving up
+        on the whole function, decide with a limit 100 times larger whether the path exists at
+        all (whether the small limit suffices depends on incidental details of the formula)."""
+        s2 = z3.Solver()
+        s2.set("rlimit", 6000000)
+        s2.set("timeout", 30000)
+        g = st.guard()
+        s2.add(*(self.qf(st.pc) + ([g] if g is not None and not self.has_quantifier(ZB(g)) else [])))
+        return s2.check() == z3.unsat
+
     def feasible(self, st):
         if not st.pc:
             return True
-        self.solver.push()
-        try:
-            self.solver.add(*self.qf(st.pc))
-            r = self.solver.check()
-        finally:
-            self.solver.pop()
-        return r != z3.unsat
+        return self._check(self.qf(st.pc)) != z3.unsat
 
     def decide(self, st, cond):
         """(can_be_true, can_be_false) under the path condition."""
@@ -546,17 +608,9 @@ class Engine:
         c = ZB(cond)
         if self.has_quantifier(c):
             return True, True
-        self.solver.push()
-        self.solver.add(*self.qf(st.pc))
-        self.solver.push()
-        self.solver.add(c)
-        t = self.solver.check() != z3.unsat
-        self.solver.pop()
-        self.solver.push()
-        self.solver.add(z3.Not(c))
-        f = self.solver.check() != z3.unsat
-        self.solver.pop()
-        self.solver.pop()
+        base = self.qf(st.pc)
+        t = self._check(base + [c]) != z3.unsat
+        f = self._check(base + [z3.Not(c)]) != z3.unsat
         return t, f
 
     # ------------------------------------------------------------------ arithmetic
@@ -725,6 +779,13 @@ class Engine:
             return False
         if isinstance(a, Obj) and isinstance(b, Obj):
             return a.oid == b.oid
+        if isinstance(a, SymSet) and isinstance(b, SymSet):
+            return And(simp(a.arr == b.arr), self.equal(a.card, b.card))
+        if isinstance(a, IndexV) and isinstance(b, IndexV):
+            return And(self.equal(a.ip, b.ip), self.equal(a.i0, b.i0), Or(Not(a.ip), self.equal(a.i1, b.i1)))
+        if isinstance(a, ObjList) and isinstance(b, ObjList) and a.cls == b.cls:
+            return And(self.equal(a.length, b.length),
+                       *[simp(a.arrays[k] == b.arrays[k]) for k in sorted(a.arrays)])
         if isinstance(a, ClassRef) and isinstance(b, ClassRef):
             return a.name == b.name
         raise Unsupported("equality of %s and %s" % (type(a).__name__, type(b).__name__))
@@ -826,6 +887,11 @@ class Engine:
             if self.reg.method_contract(base.cls, attr) is not None:
                 return ("boundmethod", base, attr)
             raise Unsupported("attribute %s of %s (no field, no contract)" % (attr, base.cls))
+        if isinstance(base, RowRef) and attr in base.lst.ftypes:
+            if not st.spec_mode:
+                base = self.row_object(base, st, node)
+                return st.heap[base.oid][attr]
+            return self.row_field(base.lst, base.row, attr)
         if isinstance(base, ClassRef):
             if base.name == "StorageType":
                 if attr in STORAGE_CODES:
@@ -931,9 +997,7 @@ class Engine:
                 return isinstance(x, EnumV) and x.sort == "StorageType"
             raise Unsupported("in " + cont.name)
         if isinstance(cont, SymSet):
-            if not is_intish(x):
-                raise Unsupported("set membership of non-int")
-            return simp(z3.Select(cont.arr, Z(x)))
+            return simp(z3.Select(cont.arr, self.set_key(x, st, node)))
         if isinstance(cont, EmptyList):
             return False
         if isinstance(cont, ActionV):
@@ -947,6 +1011,20 @@ class Engine:
             ex = self.elem_to_z3(x)
             return z3.Exists([i], z3.And(i >= 0, i < Z(cont.length), z3.Select(cont.arrs[0], i) == ex))
         raise Unsupported("membership in %s" % type(cont).__name__)
+
+    def set_key(self, x, st, node):
+        """Element of a set as an integer key: ints as they are; (storage, n) pairs as 4*n + code
+        (injective on the four StorageType members)."""
+        if is_intish(x):
+            return Z(x)
+        if isinstance(x, tuple) and len(x) == 2 and is_intish(x[1]):
+            a = x[0]
+            if isinstance(a, Opt) and isinstance(a.val, EnumV):
+                self.oblige(st, Not(a.isnone), "set_key_storage_not_none", node)
+                a = a.val
+            if isinstance(a, EnumV) and a.sort == "StorageType":
+                return simp(4 * Z(x[1]) + Z(a.code))
+        raise Unsupported("set element that is neither an int nor a (storage, step) pair")
 
     def elem_to_z3(self, x):
         if isinstance(x, EnumV):
@@ -1166,6 +1244,11 @@ class Engine:
         if isinstance(base, EmptyList):
             self.oblige(st, False, "index_in_range", node)
             return 0
+        if isinstance(base, IndexV):
+            if not isinstance(idx, int) or idx not in (0, 1):
+                raise Unsupported("operation index subscript")
+            self.oblige(st, base.ip, "index_is_a_pair", node)
+            return base.i0 if idx == 0 else base.i1
         if isinstance(base, SymList):
             ln = base.length
             if isinstance(idx, Opt):
@@ -1346,6 +1429,7 @@ class Engine:
             return ActionV(name, args)
         c = self.reg.function_contract(name, (st.frames[-1].func or self.fi))
         if c is not None:
+            args = [self.row_object(a, st, n) if isinstance(a, RowRef) else a for a in args]
             return self.call_contract(c, args, kw, st, n)
         raise Unsupported("call of %s (no contract, not a builtin)" % name)
 
@@ -1514,6 +1598,18 @@ class Engine:
             return ()
         raise Unsupported("tuple()")
 
+    def builtin_is_pair(self, args, kw, st, n):
+        """spec: the operation index is a two-element list"""
+        if isinstance(args[0], IndexV):
+            return args[0].ip
+        return isinstance(args[0], (tuple, ListLit)) and len(args[0]) == 2
+
+    def builtin_scalar(self, args, kw, st, n):
+        """spec: the operation index as a single step"""
+        if isinstance(args[0], IndexV):
+            return args[0].i0
+        return args[0]
+
     def builtin_set(self, args, kw, st, n):
         if args:
             raise Unsupported("set(iterable)")
@@ -1602,14 +1698,15 @@ class Engine:
                 return fn
             raise Unsupported("list method " + meth)
         if isinstance(lst, SymSet):
-            x = args[0]
-            if not is_intish(x):
-                raise Unsupported("set of non-int")
-            zx = Z(x)
+            zx = self.set_key(args[0], st, node)
             member = simp(z3.Select(lst.arr, zx))
             if meth == "add":
                 rebinding(SymSet(simp(z3.Store(lst.arr, zx, True)),
                                  Ite(member, lst.card, self.arith(ast.Add(), lst.card, 1, st, node))))
+                return None
+            if meth == "discard":
+                rebinding(SymSet(simp(z3.Store(lst.arr, zx, False)),
+                                 Ite(member, self.arith(ast.Sub(), lst.card, 1, st, node), lst.card)))
                 return None
             if meth == "remove":
                 self.oblige(st, member, "remove_key_present", node)
